@@ -388,7 +388,7 @@ def plan(ctx):
                         'GI_NAME=get_int__' + ty, 'GID_NAME=get_int_default__' + ty, 'C17_IDENT_NAMED=%d' % named, 'C17_CASE_PRESENT=%d' % present]
                 groups.append(Group(name='Arguments.get[%s](%s,format).%s' % (ty, idn, case), harness=HT, entry='h_get_int',
                                     function='Arguments::get<%s>(%s, format)' % (ty, idn), enforce='get_int__' + ty,
-                                    replace=[gs], defines=base, min_post=2,
+                                    replace=['parse_int__' + ty], defines=base, min_post=2,
                                     clause_note='contracts/C17_getters.h: present => parse_int outcome on the argument text, argument marked read; '
                                                 'absent => out_of_range; no other flag changes',
                                     replay=Replay(mode='getter', extra=['get_int', ty, idn, case], **RP)))
@@ -402,7 +402,7 @@ def plan(ctx):
                         'C17_IDENT_NAMED=%d' % named, 'C17_CASE_PRESENT=%d' % present]
                 groups.append(Group(name='Arguments.get[%s](%s,optional).%s' % (ty, idn, case), harness=HT, entry='h_get_float',
                                     function='Arguments::get<%s>(%s, std::optional default)' % (ty, idn), enforce='get_float__' + ty,
-                                    replace=[gs], defines=base, min_post=2,
+                                    replace=['parse_float__' + ty], defines=base, min_post=2,
                                     clause_note='contracts/C17_getters.h: present => parse_float outcome, argument marked read; absent => the default if supplied, else out_of_range',
                                     replay=Replay(mode='getter', extra=['get_float', ty, idn, case], **RP)))
     return groups
